@@ -37,7 +37,7 @@ def main():
         R = getattr(mod, ("Binary" if job["infmt"] == "b" else "NDJson") + p + "Reader")
         W = getattr(mod, ("Binary" if job["outfmt"] == "b" else "NDJson") + p + "Writer")
         rc, exc = 0, ""
-        fin = fout = None
+        fin = fout = w = None
         try:
             if job["infmt"] == "b":
                 if job.get("chunk"):
@@ -66,6 +66,15 @@ def main():
                 r.close()
                 w.close()
         except BaseException as e:  # noqa
+            try:
+                # hand over what the writer had accepted before the error (harness reaches into the
+                # writer's coded stream; generated writers only flush on close)
+                if job["outfmt"] == "b":
+                    w._stream.flush()
+                else:
+                    fout.flush()
+            except BaseException:  # noqa
+                pass
             rc = 3
             exc = type(e).__name__ + ": " + str(e)[:300]
             if job.get("trace"):
